@@ -24,6 +24,7 @@ def std_ops(alpha, cfg, tier, with_reads=True):
         ("remove", sel_time, None, "db"),
         ("remove", sel_time2, "m", "db"),
         ("remove", sel_notfield, None, "db"),
+        ("remove", sel_notfield, "m", "db"),      # candidates-only query + measurement filter: scan branch with a live index
         ("drop", "n"),
         ("remove_all",),
         ("update", sel_tag, W.mkspec(tags={"a": alpha.z}), None, "db"),
